@@ -3,11 +3,14 @@ ownership, capture-before-consume, line-break pairing, tab stops).  DESIGN.md §
 from __future__ import annotations
 
 import ast
-from typing import Dict, List, Set
+from typing import Dict, List
 
 from ..calls import lexer_parsers
 from ..cfg import cfg_of
-from ..model import AnalysisError, ancestors, parent, text, walk_fn
+from ..fold import Unknown, fold_name
+from ..lexsim import FlowEvaluator, LexerSim, RepoRaise, TokenStub
+from ..minieval import Obj, Unsupported
+from ..model import AnalysisError, text, walk_fn
 from .c05 import _cfg_node_of_expr, _pop_sites
 
 
@@ -68,11 +71,22 @@ def rule_ownership(run, prog):
            "Token objects are constructed outside the lexer (their position is not a source position): "
            + ", ".join(f.key for f, _ in outside), outside[0][1] if outside else None, constructions=len(ctors))
     # Token.lineno / column are pos[0] / pos[1]
+    tk = prog.cls("Token")
+    tmethods = {("Token", nm_): f.node for nm_, f in tk.methods.items()}
     for nm, idx in (("lineno", 0), ("column", 1)):
         m = prog.method("Token", nm)
-        ok = m is not None and len(m.node.body) >= 1 and isinstance(m.node.body[-1], ast.Return) \
-            and text(m.node.body[-1].value) == f"self.pos[{idx}]"
-        run.ob("R-9.1", f"lexer/tokens.py::Token.{nm}", ok, f"Token.{nm} is not self.pos[{idx}]", m.node if m else None)
+        got = None
+        if m is not None:
+            try:
+                ev = FlowEvaluator(tmethods, max_steps=5000)
+                got = ev.invoke(m.node, [Obj("Token", type="IDENTIFIER", pos=(3, 7), value="ab")], {})
+            except RepoRaise as r:
+                got = f"raise {r.name}"
+            except Unsupported as e:
+                raise AnalysisError(f"Token.{nm} is outside the evaluable subset: {e}")
+        ok = m is not None and any("property" in d for d in m.decorators) and got == (3, 7)[idx]
+        run.ob("R-9.1", f"lexer/tokens.py::Token.{nm}", ok, f"Token.{nm} is not self.pos[{idx}] (a token at (3, 7) gives {got!r})",
+               m.node if m else None)
 
 
 def _is_line_pos_call(e) -> bool:
@@ -83,9 +97,18 @@ def rule_capture(run, prog):
     run.rule("R-9.2", "capture before consume: in every sub-parser the position given to each Token(...) comes from "
              "self.line_pos() evaluated at a point no pop() can precede on any path", floor=12)
     lp = prog.method("Lexer", "line_pos")
-    ok = lp is not None and isinstance(lp.node.body[-1], ast.Return) and text(lp.node.body[-1].value) in (
-        "(self.__line, self.__line_pos)",)
-    run.ob("R-9.2", "lexer/lexer.py::Lexer.line_pos", ok, "Lexer.line_pos does not return (line, column)", lp.node if lp else None)
+    run.require(lp is not None, "anchor vanished: Lexer.line_pos")
+    # interpreted after popping "ab\ncd\te": the cursor is on line 2, column 7 (tab stop)
+    try:
+        sim = LexerSim(prog, "ab\ncd\tef")
+        sim.call("pop", times=6)
+        out = sim.call("line_pos")
+        got = tuple(out.value) if out.kind == "ok" and isinstance(out.value, (tuple, list)) else out
+        ok = got == (sim.line, sim.line_pos) and got == (2, 5)
+    except Unsupported as e:
+        raise AnalysisError(f"Lexer.line_pos / pop is outside the evaluable subset: {e}")
+    run.ob("R-9.2", "lexer/lexer.py::Lexer.line_pos", ok, f"Lexer.line_pos does not return (line, column): {got!r} at line 2, column 5",
+           lp.node)
     n_tok = 0
     for fn in lexer_parsers(prog):
         g = cfg_of(fn)
@@ -94,11 +117,28 @@ def rule_capture(run, prog):
         # names bound from self.line_pos():   pos = self.line_pos()  /  pos = lineno, column = self.line_pos()
         captures: Dict[str, List[ast.AST]] = {}
         other_defs: Dict[str, List[ast.AST]] = {}
+        halves: Dict[str, List] = {}            # name -> [(component index, assignment)] for `line, col = self.line_pos()`
         for n in walk_fn(fn.node):
             if isinstance(n, ast.Assign):
                 for t in n.targets:
                     if isinstance(t, ast.Name):
                         (captures if _is_line_pos_call(n.value) else other_defs).setdefault(t.id, []).append(n)
+                    elif isinstance(t, (ast.Tuple, ast.List)):
+                        for i, e in enumerate(t.elts):
+                            if isinstance(e, ast.Name):
+                                if _is_line_pos_call(n.value) and len(t.elts) == 2:
+                                    halves.setdefault(e.id, []).append((i, n))
+                                else:
+                                    other_defs.setdefault(e.id, []).append(n)
+            elif isinstance(n, (ast.AugAssign, ast.AnnAssign, ast.NamedExpr)) and isinstance(n.target, ast.Name):
+                if isinstance(n, ast.NamedExpr) and _is_line_pos_call(n.value):
+                    captures.setdefault(n.target.id, []).append(n)
+                else:
+                    other_defs.setdefault(n.target.id, []).append(n)
+            elif isinstance(n, ast.For):
+                for x in ast.walk(n.target):
+                    if isinstance(x, ast.Name):
+                        other_defs.setdefault(x.id, []).append(n)
         for n in walk_fn(fn.node):
             if isinstance(n, ast.Call) and isinstance(n.func, ast.Name) and n.func.id == "Token":
                 n_tok += 1
@@ -117,7 +157,13 @@ def rule_capture(run, prog):
                         run.ob("R-9.2", key, False, "a pop() is evaluated before self.line_pos() in the same expression", n)
                         continue
                 elif isinstance(parg, ast.Name) and parg.id in captures and parg.id not in other_defs:
-                    cap_nodes = [g.nid(a) for a in captures[parg.id]]
+                    cap_nodes = [_cfg_node_of_expr(g, a) for a in captures[parg.id]]
+                elif isinstance(parg, ast.Tuple) and len(parg.elts) == 2 and all(
+                        isinstance(e, ast.Name) and e.id in halves and e.id not in other_defs and e.id not in captures
+                        and all(i == k for i, _ in halves[e.id]) for k, e in enumerate(parg.elts)) \
+                        and {id(a) for _, a in halves[parg.elts[0].id]} == {id(a) for _, a in halves[parg.elts[1].id]}:
+                    # (line, col) rebuilt from the two halves of the same sample(s)
+                    cap_nodes = [g.nid(a) for _, a in halves[parg.elts[0].id]]
                 else:
                     run.ob("R-9.2", key, False,
                            f"the position argument `{text(parg)}` is not (only) a value of self.line_pos()", n)
@@ -130,92 +176,140 @@ def rule_capture(run, prog):
 
 
 def rule_from_token(run, prog):
-    run.rule("R-9.3", "Highlight.from_token binds token.lineno -> lineno and token.column -> column (argument-to-field "
-             "binding resolved by position and name); Context.new_error/new_warning build their highlight with it", floor=2)
+    run.rule("R-9.3", "Highlight.from_token, interpreted on a token at (line 3, column 7), builds a Highlight with lineno 3 and "
+             "column 7 (whatever the spelling of the construction); Context.new_error/new_warning build their highlight with "
+             "it from their token parameter", floor=2)
     ft = prog.method("Highlight", "from_token")
     run.require(ft is not None, "anchor vanished: Highlight.from_token")
-    fields = [st.target.id for st in prog.cls("Highlight").node.body if isinstance(st, ast.AnnAssign) and isinstance(st.target, ast.Name)]
-    calls = [n for n in walk_fn(ft.node) if isinstance(n, ast.Call) and text(n.func) in ("cls", "Highlight")]
-    ok = len(calls) == 1
-    if ok:
-        c = calls[0]
-        bound = {}
-        for i, a in enumerate(c.args):
-            if i < len(fields):
-                bound[fields[i]] = text(a)
-        for k in c.keywords:
-            bound[k.arg] = text(k.value)
-        ok = bound.get("lineno") == "token.lineno" and bound.get("column") == "token.column"
-    run.ob("R-9.3", f"{ft.key}::binding", ok,
-           "Highlight.from_token does not pass (token.lineno, token.column) as (lineno, column)", ft.node, fields=fields)
+    hl = prog.cls("Highlight")
+    tk = prog.cls("Token")
+    fields = [st.target.id for st in hl.node.body if isinstance(st, ast.AnnAssign) and isinstance(st.target, ast.Name)]
+    methods = {}
+    for c in (hl, tk):
+        for nm, f in c.methods.items():
+            methods[(c.name, nm)] = f.node
+    got = None
+    try:
+        ev = FlowEvaluator(methods, max_steps=20000)
+        ev.classes = {"Highlight": hl.node, "Token": tk.node}
+        token = Obj("Token", type="IDENTIFIER", pos=(3, 7), value="ab")
+        from ..minieval import ClassRef
+        try:
+            res = ev.invoke(ft.node, [ClassRef("Highlight"), token], {})
+            got = (getattr(res, "lineno", None), getattr(res, "column", None)) if isinstance(res, Obj) else repr(res)
+        except RepoRaise as r:
+            got = f"raise {r.name}"
+    except Unsupported as e:
+        raise AnalysisError(f"Highlight.from_token is outside the evaluable subset: {e}")
+    run.ob("R-9.3", f"{ft.key}::binding", got == (3, 7),
+           f"Highlight.from_token does not pass (token.lineno, token.column) as (lineno, column): a token at (3, 7) gives {got!r}",
+           ft.node, fields=fields)
     for nm in ("new_error", "new_warning"):
         m = prog.method("Context", nm)
-        ok = any(isinstance(n, ast.Call) and text(n.func) == "Highlight.from_token" and n.args and text(n.args[0]) == "tkn"
-                 for n in walk_fn(m.node))
+        run.require(m is not None, f"anchor vanished: Context.{nm}")
+        tparam = m.params[2] if len(m.params) > 2 else None
+        ok = any(isinstance(n, ast.Call) and text(n.func).endswith("Highlight.from_token") and n.args and isinstance(n.args[0], ast.Name)
+                 and n.args[0].id == tparam for n in walk_fn(m.node))
         run.ob("R-9.3", f"{m.key}::uses-from_token", ok, f"Context.{nm} does not position the diagnostic at its token", m.node)
 
 
+def _ref_advance(line, col, raw, tri, di):
+    """Independent model of the position after the raw text *raw* (splices, newlines, tab stops every 4, spellings)."""
+    i = 0
+    while i < len(raw):
+        if raw.startswith("\\\n", i) or raw.startswith("??/\n", i):
+            i += 2 if raw[i] == "\\" else 4
+            line, col = line + 1, 1
+            continue
+        sp = next((k for k in list(tri) + list(di) if raw.startswith(k, i)), None)
+        if sp is not None:
+            i += len(sp)
+            col += len(sp)
+            continue
+        ch = raw[i]
+        i += 1
+        if ch == "\n":
+            line, col = line + 1, 1
+        elif ch == "\t":
+            col += 4 - (col - 1) % 4
+        else:
+            col += 1
+    return line, col
+
+
 def rule_linebreaks(run, prog):
-    run.rule("R-9.4", "line-break bookkeeping (reaching definitions): every `__line += 1` is paired with `__line_pos = K` in "
-             "the same suite; K = 0 when the column of the break character itself is still added afterwards with the `size` "
-             "that was read before the break, K = 1 when `size` is re-read after the break (or nothing is added)", floor=3)
-    n_sites = 0
-    for key in ("lexer/lexer.py::Lexer.pop", "lexer/lexer.py::Lexer.get_next_token"):
-        fn = prog.fn(key)
-        g = cfg_of(fn)
-        size_defs = set()
-        adds = set()
-        for n in walk_fn(fn.node):
-            if isinstance(n, (ast.Assign, ast.NamedExpr, ast.AugAssign)):
-                tg = n.targets if isinstance(n, ast.Assign) else [n.target]
-                names = [x.id for t in tg for x in ast.walk(t) if isinstance(x, ast.Name)]
-                if "size" in names and not isinstance(n, ast.AugAssign):
-                    size_defs.add(_cfg_node_of_expr(g, n))
-            if isinstance(n, ast.AugAssign) and isinstance(n.op, ast.Add) and text(n.target).endswith("__line_pos") \
-                    and any(isinstance(x, ast.Name) and x.id == "size" for x in ast.walk(n.value)):
-                adds.add(g.nid(n))
-        size_defs.discard(None)
-        adds.discard(None)
-        for n in walk_fn(fn.node):
-            if isinstance(n, ast.AugAssign) and isinstance(n.op, ast.Add) and text(n.target).endswith("__line") \
-                    and isinstance(n.value, ast.Constant) and n.value.value == 1:
-                n_sites += 1
-                blk = _block_of(n)
-                resets = [s for s in blk if isinstance(s, ast.Assign) and any(text(t).endswith("__line_pos") for t in s.targets)]
-                skey = f"{fn.key}::line-break[{_site_anchor(n)}]"
-                if len(resets) != 1 or not isinstance(resets[0].value, ast.Constant):
-                    run.ob("R-9.4", skey, False, "a line increment is not paired with a constant reset of the column", n)
-                    continue
-                K = resets[0].value.value
-                start = max(g.nid(n), g.nid(resets[0]), key=lambda x: (g.nodes[x].ast.lineno if g.nodes[x].ast is not None else 0))
-                old_size_add = any(g.can_reach(start, a, avoid=size_defs) for a in adds)
-                want = 0 if old_size_add else 1
-                run.ob("R-9.4", skey, K == want,
-                       f"after this line break the column is reset to {K} but "
-                       + ("the break character's own width is added afterwards (size read before the break): it must be 0"
-                          if want == 0 else
-                          "the next width added belongs to a character of the new line (size is re-read) or nothing is added: "
-                          "it must be 1, otherwise every following token on that line is one column off"),
-                       resets[0], K=K, expected=want)
-    run.require(n_sites >= 3, f"only {n_sites} line-increment sites found (floor 3)")
+    run.rule("R-9.4", "line-break bookkeeping: interpreting Lexer.pop on a newline and on one or two line splices (both "
+             "spellings) followed by a plain character, a tab, a newline, a digraph or a trigraph -- for every combination of "
+             "use_escape / use_spaces and two start columns -- and Lexer.get_next_token on splices between tokens (sub-parsers "
+             "replaced by a stub that records the position it sees), the (line, column) and the offset reached are those of an "
+             "independent model of the raw text", floor=3)
+    dm = prog.mod("lexer/dictionary.py")
+    try:
+        tri, di = fold_name("trigraphs", dm), fold_name("digraphs", dm)
+    except Unknown as e:
+        raise AnalysisError(f"lexer tables do not fold: {e}")
+    pop = prog.fn("lexer/lexer.py::Lexer.pop")
+    gnt = prog.fn("lexer/lexer.py::Lexer.get_next_token")
+    flags = [dict(), dict(use_escape=True), dict(use_spaces=True), dict(use_escape=True, use_spaces=True)]
+    bad = {"newline": None, "splice": None, "gnt": None}
+    n = {"newline": 0, "splice": 0, "gnt": 0}
 
+    def run_pop(prefix, body, consumed, kw):
+        sim = LexerSim(prog, " " * prefix + body)
+        if prefix:
+            sim.call("pop", times=prefix)
+        out = sim.call("pop", **kw)
+        want = _ref_advance(1, 1 + prefix, consumed, tri, di)
+        got = (sim.line, sim.line_pos)
+        ok = out.kind == "ok" and got == want and sim.pos == prefix + len(consumed)
+        return ok, (body, kw, got, want, out, sim.pos, prefix + len(consumed))
 
-def _block_of(stmt):
-    p = parent(stmt)
-    for field in ("body", "orelse", "finalbody"):
-        blk = getattr(p, field, None)
-        if isinstance(blk, list) and any(s is stmt for s in blk):
-            return blk
-    return []
+    try:
+        for prefix in (0, 2):
+            for kw in flags:
+                n["newline"] += 1
+                ok, rec = run_pop(prefix, "\nz", "\n", kw)
+                if not ok and bad["newline"] is None:
+                    bad["newline"] = rec
+                for sp in ("\\\n", "??/\n"):
+                    for count in (1, 2):
+                        for nxt in ("a", "\t", "\n", sorted(di)[0], sorted(tri)[0]):
+                            if tri.get(nxt) == "\\":
+                                continue
+                            n["splice"] += 1
+                            ok, rec = run_pop(prefix, sp * count + nxt + "z", sp * count + nxt, kw)
+                            if not ok and bad["splice"] is None:
+                                bad["splice"] = rec
+            for sp in ("\\\n", "??/\n"):
+                for count in (1, 2, 3):
+                    n["gnt"] += 1
+                    sim = LexerSim(prog, " " * prefix + sp * count + "a")
+                    if prefix:
+                        sim.call("pop", times=prefix)
+                    seen = []
 
+                    def stub(me, sim=sim, seen=seen):
+                        seen.append(((sim.line, sim.line_pos), sim.pos))
+                        return TokenStub("T", (sim.line, sim.line_pos), None)
+                    sim.me.__dict__["parsers"] = (stub,)
+                    out = sim.call("get_next_token")
+                    want = (_ref_advance(1, 1 + prefix, sp * count, tri, di), prefix + len(sp) * count)
+                    if not (out.kind == "ok" and seen[:1] == [want]) and bad["gnt"] is None:
+                        bad["gnt"] = (sp * count + "a", {}, seen[:1], want, out, sim.pos, want[1])
+    except Unsupported as e:
+        raise AnalysisError(f"Lexer.pop / get_next_token is outside the evaluable subset: {e}")
 
-def _site_anchor(n) -> str:
-    for a in ancestors(n):
-        if isinstance(a, ast.If):
-            return text(a.test, 40)
-        if isinstance(a, (ast.For, ast.While)):
-            return "loop " + text(a.iter if isinstance(a, ast.For) else a.test, 30)
-    return "top"
+    def show(rec):
+        body, kw, got, want, out, pos, wpos = rec
+        return (f"on {body!r} {kw or ''} the position reached is {got} at offset {pos} (result {out!r}); the raw text puts it at "
+                f"{want} / offset {wpos}: every following token on that line is reported at the wrong column")
+
+    run.ob("R-9.4", f"{pop.key}::line-break[newline]", bad["newline"] is None,
+           "after popping a newline " + (show(bad["newline"]) if bad["newline"] else ""), pop.node, evaluations=n["newline"])
+    run.ob("R-9.4", f"{pop.key}::line-break[splice]", bad["splice"] is None,
+           "after a line splice inside pop() " + (show(bad["splice"]) if bad["splice"] else ""), pop.node, evaluations=n["splice"])
+    run.ob("R-9.4", f"{gnt.key}::line-break[splice]", bad["gnt"] is None,
+           "after a line splice between two tokens " + (show(bad["gnt"]) if bad["gnt"] else ""), gnt.node, evaluations=n["gnt"])
 
 
 def rule_no_stale_sample(run, prog):
@@ -229,7 +323,8 @@ def rule_no_stale_sample(run, prog):
         for n in walk_fn(fn.node):
             if isinstance(n, (ast.Assign, ast.AugAssign)):
                 tg = n.targets if isinstance(n, ast.Assign) else [n.target]
-                if any(text(t).endswith(("__line", "__line_pos")) for t in tg):
+                flat = [e for t in tg for e in (t.elts if isinstance(t, (ast.Tuple, ast.List)) else [t])]
+                if any(text(t).endswith(("__line", "__line_pos")) for t in flat):
                     writes.add(g.nid(n))
         writes.discard(None)
         samples = {}        # name -> [sample node ids]
@@ -237,8 +332,8 @@ def rule_no_stale_sample(run, prog):
             if isinstance(n, ast.Assign) and any(x in text(n.value) for x in ("self.line_pos()", "self.__line_pos", "self.__line")) \
                     and not isinstance(n.value, ast.Constant):
                 for t in n.targets:
-                    for x in ast.walk(t):
-                        if isinstance(x, ast.Name):
+                    for x in (t.elts if isinstance(t, (ast.Tuple, ast.List)) else [t]):
+                        if isinstance(x, ast.Name):         # locals only: a store to the state itself is not a sample
                             samples.setdefault(x.id, []).append(g.nid(n))
         bad = []
         for name, sids in samples.items():
